@@ -238,7 +238,8 @@ impl Probe for MemSink<u8> {
         n % 8 == 0 || s[s.len() - 1] & (0xFFu8 >> (n % 8)) == 0
     }
     fn exports(&self) -> (Vec<u8>, String) {
-        let mut d = vec![0u8; (self.len() + 7) / 8];
+        // the destination is not zero beforehand: an export overwrites every byte it covers
+        let mut d = vec![0xA5u8; (self.len() + 7) / 8];
         self.write_to_byte_slice(&mut d);
         (d, self.to_bitstring())
     }
@@ -266,7 +267,8 @@ impl Probe for MemSink<u64> {
         n % 64 == 0 || s[s.len() - 1] & (u64::MAX >> (n % 64)) == 0
     }
     fn exports(&self) -> (Vec<u8>, String) {
-        let mut d = vec![0u8; (self.len() + 7) / 8];
+        // the destination is not zero beforehand: an export overwrites every byte it covers
+        let mut d = vec![0xA5u8; (self.len() + 7) / 8];
         self.write_to_byte_slice(&mut d);
         (d, self.to_bitstring())
     }
